@@ -1303,3 +1303,12 @@ package main
 // parameters of a {ctrl}, whichever map type the handler built them with. Dynamic map types are outside the contract
 // language; a bounded stand-in runs the real serialiser on the three shapes in use.
 //@ bounded [C20] ctrl_params_kept: shape int in 0..2, v int in 0..15 :: verifCtrlParamsKept(shape, v)
+
+// C05: "text with unknown letters is rejected": a default-access pair is refused when either of its texts has an unknown
+// letter - an error in the first text is not forgotten because the second one is fine.
+//@ func parseTopicAccess(acs *MsgDefaultAcsMode, defAuth types.AccessMode, defAnon types.AccessMode) (authMode types.AccessMode, anonMode types.AccessMode, err error)
+//@   requires [C05] acs != nil
+//@   modifies inferred
+//@   ensures [C05] bad_auth_text_rejected: (exists i int :: 0 <= i && i < len(acs.Auth) && bitOf(acs.Auth[i]) == 0 && !isN(acs.Auth[i])) ==> err != nil
+//@   ensures [C05] bad_anon_text_rejected: (exists i int :: 0 <= i && i < len(acs.Anon) && bitOf(acs.Anon[i]) == 0 && !isN(acs.Anon[i])) ==> err != nil
+//@   ensures [C05] failure_keeps_defaults_of_the_failed_part: err == nil || authMode == defAuth || anonMode == defAnon
